@@ -14,7 +14,9 @@ import sys
 import vlib
 
 ENV = {'C14_A': 'alpha', 'C14_B': 'b-b', 'C14_N': '7', 'C14_P': '/opt/x', 'C14_T': 'true', 'C14_E': 'TICK_5',
-       'C14_S': 'USR1', 'C14_W': 'web'}
+       'C14_S': 'USR1', 'C14_W': 'web',
+       # values containing percent signs: substituted verbatim, never re-read as format expressions
+       'C14_F': '%Y-%m-%d', 'C14_X': '%(x)s', 'C14_Q': 'a%%b 100%'}
 ENV_KEYS = set('ENV_' + k for k in ENV)
 
 # ------------------------------------------------------------------ rendering
@@ -120,19 +122,41 @@ def classify(msg):
 
 
 def set_environ():
+    """Put the controlled variables into os.environ; returns what to hand to
+    restore_environ()."""
+    saved = dict((k, os.environ.get(k)) for k in ENV)
     for k, v in ENV.items():
         os.environ[k] = v
+    return saved
+
+
+def restore_environ(saved):
+    for k, v in (saved or {}).items():
+        if v is None:
+            os.environ.pop(k, None)
+        else:
+            os.environ[k] = v
+
+
+def new_options():
+    """A real ServerOptions whose ENV_ expansion table was built (by its own
+    __init__) from os.environ holding the controlled variables, which are set
+    only around the construction; only the controlled names are kept."""
+    from supervisor.options import ServerOptions
+    saved = set_environ()
+    try:
+        o = ServerOptions()
+    finally:
+        restore_environ(saved)
+    o.environ_expansions = dict((k, v) for k, v in o.environ_expansions.items() if k in ENV_KEYS)
+    return o
 
 
 def real_parse(path, cwd=None):
     """Run the real reader on the file.  ('ok', options) | ('err', kind, msg)
     | ('exc', exception type name, msg).  `path` may be relative to `cwd`, into
     which the process changes for the duration of the run."""
-    from supervisor.options import ServerOptions
-    set_environ()
-    o = ServerOptions()
-    # only the controlled ENV_ names (the model is told exactly these)
-    o.environ_expansions = dict((k, v) for k, v in o.environ_expansions.items() if k in ENV_KEYS)
+    o = new_options()
     o.configfile = path
     back = os.getcwd()
     if cwd is not None:
